@@ -842,6 +842,18 @@ class Node:
         If `with_clones` is true, all nodes that reference the same data
         instance are removed as well.
         """
+        if keep_children:
+            # Check first, so a refused call leaves the tree untouched
+            for n in self.get_clones(add_self=True) if with_clones else [self]:
+                sibling_ids = {
+                    s._data_id for s in n._parent._children if s is not n  # type: ignore
+                }
+                for c in n._children or ():
+                    if c._data_id in sibling_ids:
+                        raise UniqueConstraintError(
+                            f"Node.data already exists in parent: {c}"
+                        )
+
         if with_clones:
             for c in self.get_clones():  # Excluding self
                 if c._tree is None:
@@ -852,8 +864,14 @@ class Node:
             assert not self.is_clone()
 
         if keep_children:
-            for c in self.children.copy():
-                c.move_to(self._parent, before=self)
+            # Un-nest the children: insert them before this node, in order
+            children = self._children or []
+            pc = self._parent._children
+            idx = _index_of(pc, self)  # type: ignore
+            pc[idx:idx] = children  # type: ignore
+            for c in children:
+                c._parent = self._parent
+            self._children = None
         else:
             self.remove_children()
 
